@@ -590,7 +590,7 @@ impl<'a> Interp<'a> {
         if let Some(k) = &key {
             op.insert("key".into(), json!(k));
         }
-        for f in ["entry", "algo", "chunks", "flush_after", "repoll", "stop_after", "end", "bufs", "check", "mid_after", "fully", "reads", "clock_at_commit", "cancel_polls", "abandon_chunks", "write_all", "vectored"] {
+        for f in ["entry", "algo", "chunks", "flush_after", "repoll", "stop_after", "end", "bufs", "check", "mid_after", "fully", "reads", "clock_at_commit", "cancel_polls", "abandon_chunks", "write_all", "vectored", "eof_reads", "to_end", "exact_first"] {
             if let Some(v) = st.get(f) {
                 op.insert(f.into(), v.clone());
             }
